@@ -44,12 +44,70 @@ def make_cases(rng, tier, diff_here):
 
 RULE = ("systematic: each of the 21 entry points x 5 rotations of a rule set containing a non-returning, a value-returning, a bare-returning, a failing-before-return and a failing-inside-return rule "
         "x fresh engine / engine used by an earlier call that left an entry; an all-non-returning set on a used engine; random: 250 (thorough 6000) calls over all entry points and rule kinds. "
-        "Keys are compared inside Coq, values (returned integer / nil for a bare return) by the driver.")
+        "Keys are compared inside Coq, values (returned integer / nil for a bare return) by the driver. Pool part: the 24 wrapper methods called in a row on (1,2) pools whose rule sets contain an always-failing rule at the top, in the middle or at the bottom; the map each hands back (also with an error) is compared inside Coq with the map Engine/Spec.v assigns to that entry point (Pool/Compose.v expected_result_k).")
+
+
+def pool_part(run):
+    """The same promise through the POOL: every one of the 24 wrapper methods, on rule sets in which the always-failing probe rule
+    pd is the top, a middle or the lowest rule, several calls in a row on a (1,2) pool (so that an instance serves again and
+    again).  The map a wrapper hands back — also when the call reports an error — must be the map the engine specification
+    (Engine/Spec.v through Pool/Compose.v expected_result_k) assigns to that entry point on the installed rules."""
+    import poolfam
+    import c07
+    scs, sid = [], 1
+    for order in (["pd", "pa", "pb"], ["pa", "pd", "pb"], ["pa", "pb", "pd"], ["pa", "pb", "pc"]):
+        for model in (1, 3):
+            rules = poolfam.rules_v(1, names=order, kinds={"pd": "fail"})
+            sc = {"id": sid, "min": 1, "max": 2, "model": model, "rules": rules, "steps": []}
+            rid = sid * 1000
+            for meth in poolfam.METHODS:
+                rid += 1
+                sc["steps"].append(poolfam.req_step(rid, meth, order, hold_at="", flag=True))
+                sc["steps"].append({"op": "wait", "id": rid})
+            scs.append(sc)
+            sid += 1
+    obs = poolfam.run_pool([poolfam.strip(s) for s in scs])
+    ob = {o["id"]: o for o in obs}
+    items, n_calls, n_err = [], 0, 0
+    extra = []
+    for sc in scs:
+        o = ob[sc["id"]]
+        if o.get("crash"):
+            extra.append((sc["id"], 0))
+            continue
+        steps = {st["id"]: st for st in sc["steps"] if st["op"] == "req"}
+        for r in o["reqs"]:
+            if not r.get("done"):
+                extra.append((sc["id"], r["id"] % 1000))
+                continue
+            n_calls += 1
+            n_err += 1 if r["err"] else 0
+            got = poolfam.coq_list(["(%s, %s)" % (poolfam.coq_str(n), poolfam.coq_z(v // 1000000)) for n, v in sorted(r["result"].items()) if v >= 0])
+            items.append("(%s, %s, %s, %s, %s, %s, %s)" % (poolfam.coq_nat(sc["id"]), poolfam.coq_nat(r["id"] % 1000), poolfam.coq_nat(sc["max"]), poolfam.coq_nat(sc["model"]),
+                                                       poolfam.coq_prules(sc["rules"]), c07.coq_shape(steps[r["id"]], sc["model"]), got))
+    defs = ("Definition pcases := %s.\nDefinition PM := flat_map (fun c => match c with (sid, q, mx, md, rs, sh, got) => "
+            "if same_entries got (expected_result_k probe_fails sh (mgmt_init mx md rs idshuffle)) then [] else [(sid, q)] end) pcases.\n") % poolfam.coq_list(items, per_line=True)
+    mm = [tuple(t) for t in poolfam.evaluate(PID + "_pool", defs, ["PM"])["PM"]] + extra
+    run.log("pool part: %d wrapper calls (%d reporting an error), %d disagreement(s)" % (n_calls, n_err, len(mm)))
+    byid = {s["id"]: s for s in scs}
+    seen = set()
+    for sid, q in mm:
+        sc = byid[sid]
+        st = next((x for x in sc["steps"] if x["op"] == "req" and x["id"] % 1000 == q), None)
+        meth = st["method"] if st else "?"
+        if meth in seen:
+            continue
+        seen.add(meth)
+        r = next((x for x in ob[sid]["reqs"] if x["id"] % 1000 == q), None)
+        run.report({"kind": "pool-result", "entry": meth}, {"scenario": poolfam.strip(sc), "request": r, "disagreement": "the result map handed back by the pool wrapper is not the one the entry point yields on the installed rules"},
+                   "C11: pool wrapper %s on rules %s (pd always fails), model %d: returned map %s (error reported: %s) is not the map the execution model yields" % (
+                       meth, [x["name"] for x in sc["rules"]], sc["model"], r and r.get("result"), r and r.get("err")))
+    return (not mm), {"pool_wrapper_calls": n_calls, "pool_wrapper_calls_reporting_an_error": n_err}
 
 
 def main(run):
     return engine_check(run, PID, ENTRIES_P, make_cases, RULE,
-                        ["a rule that fails never reports the returned-flag (rule-level half of C11: Props/C11.v return_flag theorems over the statement model)"])
+                        ["a rule that fails never reports the returned-flag (rule-level half of C11: Props/C11.v return_flag theorems over the statement model)"], after=pool_part)
 
 
 def replay(run, data):
